@@ -769,6 +769,27 @@ def _list_of_closed(prog, fm: FuncModel, name: str, at, depth) -> tuple[bool, st
             if not _source_sccs_closed(prog):
                 return False, "source_SCCs no longer keeps only components equal to their backward closure"
             continue
+        vv = v.args[0] if isinstance(v, ast.Call) and callee_name(v) in ("list", "sorted", "tuple") and len(v.args) == 1 else v
+        if isinstance(vv, ast.Call) and callee_name(vv) == "values" and isinstance(vv.func, ast.Attribute) \
+                and isinstance(vv.func.value, ast.Name) and not vv.args:
+            # list(groups.values()) with groups[key] = (block, [nodes]): the first component of every stored value
+            Dn = vv.func.value.id
+            n_st = 0
+            okd = True
+            for n_ in own_walk(fm.f.node):
+                if isinstance(n_, ast.Assign) and len(n_.targets) == 1 and isinstance(n_.targets[0], ast.Subscript) \
+                        and text(n_.targets[0].value) == Dn:
+                    n_st += 1
+                    first_ = n_.value.elts[0] if isinstance(n_.value, ast.Tuple) and n_.value.elts else n_.value
+                    r = _bwd_closed(prog, fm, first_, fm.cfgn(n_), depth + 1)
+                    if not r[0]:
+                        return r
+                elif isinstance(n_, ast.Call) and isinstance(n_.func, ast.Attribute) and text(n_.func.value) == Dn \
+                        and n_.func.attr in ("update", "setdefault", "__setitem__"):
+                    okd = False
+            if n_st and okd:
+                continue
+            return False, f"`{name}` = `{text(v)[:40]}`"
         if isinstance(v, ast.ListComp) and len(v.generators) == 1 and not v.generators[0].ifs:
             # [(set(block), nodes) for block, nodes in groups.items()]: the keys of a grouping dictionary
             g_ = v.generators[0]
